@@ -6,10 +6,11 @@ CONSTANTS
   AcqBarrier = TRUE
   NotLeaderPanics = FALSE
   ApplyRefuses = TRUE
+  QueueGroup = TRUE
   MaxReq = 2
   MaxTransfers = 2
   MaxCancels = 0
-  MaxSlow = 1
+  MaxSlow = 0
   MaxLog = 3
   OpSet = {"create", "delete", "expand", "shrink", "elect"}
 INVARIANTS TypeOK Inv_Current Inv_AtMostOneEffect Inv_OkCommitted Inv_RefusedNoEntry Inv_NoCrash
